@@ -6,6 +6,7 @@ import (
 	"fmt"
 	"os"
 
+	"verif/harness/apix"
 	"verif/harness/cachex"
 	"verif/harness/clockx"
 	"verif/harness/concx"
@@ -27,6 +28,7 @@ import (
 var commands = map[string]func(args []string){}
 
 func init() {
+	commands["api"] = apix.Run
 	commands["conc"] = concx.Run
 	commands["conc-clock"] = concx.ClockCmd
 	commands["conc-child"] = concx.Child
